@@ -269,8 +269,8 @@ def run (t : Tbl) (cmd : String) (args : List String) : Tbl × String :=
     match parseBytes bytes with
     | some bs => withSk t h fun _ e => (t, encChk e (om == "1") bs)
     | none => (t, "bad-op")
-  | "dec", h :: m :: rest =>
-    -- dec <h> <m|-> <storekind> [N] [x] <bytes>
+  | "dec", h :: m :: om :: rest =>
+    -- dec <h> <m|-> <oracleMh|-> <storekind> [N] [x] <bytes>
     match parseNat h, parseStoreKind rest with
     | some h, some (k, rest2) =>
       let isX := rest2.contains "x"
@@ -278,18 +278,15 @@ def run (t : Tbl) (cmd : String) (args : List String) : Tbl × String :=
       | [bytes] =>
         match parseBytes bytes with
         | some bs =>
-          let mh := parseNat m
-          let mid := (mh.bind (get? t.maps)).map (·.id)
-          let e : Entry := { sk := if isX then Sk.exact (XSketch.new mid k) else Sk.plain (Sketch.new mid k), map := mh }
+          let mid := ((parseNat m).bind (get? t.maps)).map (·.id)
+          let e : Entry := { sk := if isX then Sk.exact (XSketch.new mid k) else Sk.plain (Sketch.new mid k), map := parseNat om }
           let r := match e.sk with
             | .plain s => liftP (s.decodeAndMergeWith bs)
             | .exact x => liftX (x.decodeAndMergeWith bs)
           match r with
           | none => (putSk t h { e with poisoned := true }, "panic")
           | some (.error er) => (putSk t h { e with poisoned := true }, "err:" ++ er.name)
-          | some (.ok sk) =>
-            -- a decoded mapping needs an oracle: the harness registers it under the handle given after `@`
-            (putSk t h { e with sk := sk }, "ok")
+          | some (.ok sk) => (putSk t h { e with sk := sk }, "ok")
         | none => (t, "bad-op")
       | _ => (t, "bad-op")
     | _, _ => (t, "bad-op")
